@@ -150,7 +150,7 @@ func allProps() []Prop {
 	}
 	gmeNew := caseJobs("VerifH_gmenew", map[string][]int{"bad": {0, 1, 2}}, []string{"bad"})
 	gmeNotify := caseJobs("VerifH_gmenotify", map[string][]int{"flip0": {0, 1, 2}, "flip1": {0, 1, 2}}, []string{"flip0", "flip1"})
-	gmeJobs := cat(gmeAll, gmeNew, gmeNotify, one("VerifH_gmep3"))
+	gmeJobs := cat(gmeAll, gmeNew, gmeNotify, one("VerifH_gmep3"), caseJobs("VerifH_gmenames", map[string][]int{"defaultIsEmptyName": {0, 1}}, []string{"defaultIsEmptyName"}))
 	gmeBounds := map[string]string{"endpoints": "3 endpoint names", "multiendpoints": "names default/read (+ one name without options, + one unknown name in RPC contexts); lists of 0..2 distinct endpoints", "initial configuration": "quick: default=[a,b], read=[b]; thorough also default=[a] alone and default=[a,b], read=[c,a]", "updates": "one fully symbolic UpdateMultiEndpoints (which MultiEndpoints are present, their lists, the default name, a dial failing at a symbolic position), then RPCs with 4 contexts, Invoke/NewStream, Close (close errors symbolic)", "timers": "recovery timeout and switching delay 0 (the timed behaviour is C13/C14)", "loop unroll": "6"}
 	gmeAssume := append(append([]string{}, commonAssume...), "*grpc.ClientConn is opaque: GetState/Close/Invoke/NewStream are harness summaries over ghost {ready, closed}; context.WithCancel is a harness summary (ghost spawn/cancel pairs stand for monitor goroutines); `go mc.monitor` is recorded, one monitor iteration is exercised by calling notify; protojson.Marshal and grpc.With* options are opaque", "'within bounded time' after a real connectivity change is the gRPC runtime's WaitForStateChange: not covered")
 	pb := "spanner_prober/prober"
@@ -187,7 +187,7 @@ func allProps() []Prop {
 		{ID: "C12", Jobs: icptJobs, Panics: true, Progress: true, Lockset: true, Assume: commonAssume, Bounds: icptBounds},
 		{ID: "C15", Jobs: gmeJobs, Panics: true, Assume: gmeAssume, Bounds: gmeBounds},
 		{ID: "C16", Jobs: gmeJobs, Panics: true, Assume: gmeAssume, Bounds: gmeBounds},
-		{ID: "C17", Jobs: cat(initJ, gmeQuick[6:7]), Assume: append(append([]string{}, commonAssume...), "proto.Clone is modelled as a structural deep copy of the exported fields of the message object graph", "NOT covered: the JSON parser (protojson.Unmarshal behind ParseConfig) - reflection-driven library code outside the executor; 'accepts exactly the well-formed JSON renderings and round-trips them' is not claimed"), Bounds: map[string]string{"config": "ApiConfig present or nil, ChannelPool present or nil, all scalars full-width symbolic, 0..2 method entries x 0..2 names (symbolic strings, possibly equal), affinity section present or nil per entry; a second resolver update with another symbolic configuration", "minSize": "<= 3 (at most 4 connections at start)", "loop unroll": "6"}},
+		{ID: "C17", Jobs: cat(initJ, uccs, gmeQuick[6:7]), Assume: append(append([]string{}, commonAssume...), "proto.Clone is modelled as a structural deep copy of the exported fields of the message object graph", "NOT covered: the JSON parser (protojson.Unmarshal behind ParseConfig) - reflection-driven library code outside the executor; 'accepts exactly the well-formed JSON renderings and round-trips them' is not claimed"), Bounds: map[string]string{"config": "ApiConfig present or nil, ChannelPool present or nil, all scalars full-width symbolic, 0..2 method entries x 0..2 names (symbolic strings, possibly equal), affinity section present or nil per entry; a second resolver update with another symbolic configuration", "minSize": "<= 3 (at most 4 connections at start)", "loop unroll": "6"}},
 		{ID: "C11", Jobs: keysJobs, Panics: true, Assume: append(append([]string{}, commonAssume...), "package reflect is modelled by intrinsics (ValueOf, Kind, Elem, FieldByName, Len, Index, String) over the symbolic heap following its documented semantics; strings.Split/Title are applied to constants", "types outside the bounded family (embedded pointer-to-struct fields, arrays, pointer-to-pointer) and locators needing Unicode title-casing are not covered"), Bounds: keysBounds},
 		{ID: "C19", Jobs: ckJobs, Panics: true, Assume: append(append([]string{}, commonAssume...), "crc32.MakeTable/Checksum are an uninterpreted function of (polynomial, exact byte slice): the arithmetic of CRC32C (stdlib, partly assembly) is not encoded", "the inner codec is a harness fake returning arbitrary bytes: 'decodes to an equal message' inside the protobuf runtime is reduced to 'a conforming parser (real protowire.ConsumeField) skips exactly the 6-byte prefix'"), Bounds: ckBounds},
 		{ID: "C13", Jobs: meJobs, Panics: true, Assume: commonAssume, Bounds: meBounds},
